@@ -31,8 +31,10 @@ RULE = (
     "non-trivial = all (every case evaluates a series or a segment chain at a distinct argument); distinct by tuple"
 )
 BOUNDS = {
-    "quick": "Sun, Moon x 767 dates; 240 ordered pairs x 20 dates x 2 configurations; 16 body frames x 20 dates x 2 directions x 2 configurations",
-    "thorough": "Sun, Moon x 7669 dates (every day); 240 ordered pairs x 60 dates x 2 configurations",
+    "quick": "Sun, Moon x 767 dates; 240 ordered pairs x 20 dates x 2 configurations; 16 body frames x 20 dates x 2 directions x 2 configurations; "
+    "history: every sequence of <= 3 operations over {get_orbit at 2 dates, in-place frame change, in-place form change, pair conversion at 2 dates, reverse pair} "
+    "for 5 bodies (PCK) / 2 bodies (no PCK)",
+    "thorough": "Sun, Moon x 7669 dates (every day); 240 ordered pairs x 60 dates x 2 configurations; history for 5 bodies in both configurations",
 }
 ASSUMPTIONS = [
     "accuracy figures of the property text used verbatim: Sun 0.02 deg / 1e-4, Moon 0.7 deg / 0.5 %",
@@ -314,9 +316,143 @@ def check_config(case, t):
     t.outcome(("config", case["config"]["jpl"]))
 
 
+
+# ---------------------------------------------------------------------------
+# history independence of the JPL propagators / frames
+
+HIST_BODIES = [301, 3, 4, 10, 399]  # bodies whose own segment is not identically zero
+HIST_DATES = [(52883, 21600.0, "UTC"), (57064, 63900.0, "UTC")]
+
+
+def hist_scripts(tier):
+    """Every sequence of <= 3 operations over
+       G1/G2  o = get_orbit(a, d1|d2)
+       F      in-place frame change of the most recently returned orbit (o.frame = ...)
+       M      in-place form change of the most recently returned orbit (o.form = 'spherical')
+       C1/C2  pair conversion routed through a's segment: get_orbit(x, d1|d2).copy(frame=a)
+       R1     reverse pair at d1: get_orbit(a, d1).copy(frame=x)
+    (F / M need an orbit returned before)."""
+    import itertools
+
+    alpha = ["G1", "G2", "F", "M", "C1", "C2", "R1"]
+    out = []
+    for k in (1, 2, 3):
+        for seq in itertools.product(alpha, repeat=k):
+            # F / M act on the most recent orbit returned by get_orbit(a, .)
+            if any(op in ("F", "M") and not any(g in ("G1", "G2") for g in seq[:j]) for j, op in enumerate(seq)):
+                continue
+            out.append(list(seq))
+    return out
+
+
+def check_hist(case, t):
+    from mc.ref import spk_ref
+    from beyond.dates import Date
+    from beyond.env import jpl
+
+    if _G.get("mode") != case["config"]["jpl"]:
+        raise RuntimeError("wrong worker configuration")
+    names = _G["names"]
+    a = case["body"]
+    x = 399 if a != 399 else 301  # partner whose conversion goes through a's segment
+    other = 10 if a != 10 else 399  # target of the in-place frame change
+    parent = spk_ref.chain_to_ssb(a)[0][0]
+    dates = [Date(m, sec, scale=sc) for m, sec, sc in HIST_DATES]
+    jds = [d.change_scale("TDB").jd for d in dates]
+    clause = ("frames and orbits from SPK files reproduce the chained segments for every pair, whatever was computed before "
+              "(a returned orbit belongs to the caller: it is never handed out again and never changes afterwards)")
+    sig = "jpl/history"
+    returned = []  # [object, snapshot array, frame name, form name]
+    last = None  # (entry index, body, date index, centre id)
+
+    def value(o, tgt, ctr, di, step, what, start=None):
+        ref, (tp, tv), _ = _ref_pair(tgt, ctr, jds[di], start=start)
+        got = np.array(o.copy(form="cartesian"), dtype=float)
+        tp = tp + 16 * 2.2e-16 * np.linalg.norm(ref[:3])  # spherical <-> cartesian round trip of an in-place form change
+        tv = tv + 16 * 2.2e-16 * np.linalg.norm(ref[3:])
+        ep = np.max(np.abs(got[:3] - ref[:3]))
+        ev = np.max(np.abs(got[3:] - ref[3:]))
+        ok1 = t.margin("JPL history: position vs chained segments [m over tol]", ep, tp, case)
+        ok2 = t.margin("JPL history: velocity vs chained segments [m/s over tol]", ev, tv, case)
+        if not (ok1 and ok2):
+            t.fail(sig + "/value", clause, case, ref, got,
+                   f"step {step} {what}: {names[tgt]} wrt {names[ctr]} at date #{di}: |dpos|={ep:.3e} m, |dvel|={ev:.3e} m/s")
+            return False
+        return True
+
+    def record(o, step, what):
+        for ent in returned:
+            if ent[0] is o:
+                t.fail(sig + "/shared-object", clause, case, "a new object", f"object returned at step {ent[4]} again",
+                       f"step {step} {what} returned the same Orbit object as step {ent[4]}")
+                return
+        returned.append([o, np.array(o, dtype=float).copy(), o.frame.name, str(o.form), step])
+
+    try:
+        for i, op in enumerate(case["script"]):
+            if op in ("G1", "G2"):
+                di = int(op[1]) - 1
+                o = jpl.get_orbit(names[a], dates[di])
+                t.trans()
+                record(o, i, op)
+                last = (len(returned) - 1, di, parent)
+                if not value(o, a, parent, di, i, "get_orbit"):
+                    break
+            elif op in ("C1", "C2"):
+                di = int(op[1]) - 1
+                o = jpl.get_orbit(names[x], dates[di])
+                record(o, i, op + ":get")
+                r = o.copy(frame=names[a])
+                t.trans(2)
+                if not value(r, x, a, di, i, "pair " + names[x] + "->" + names[a]):
+                    break
+            elif op == "R1":
+                o = jpl.get_orbit(names[a], dates[0])
+                record(o, i, op + ":get")
+                r = o.copy(frame=names[x])
+                t.trans(2)
+                if not value(r, a, x, 0, i, "pair " + names[a] + "->" + names[x]):
+                    break
+            elif op == "F":
+                idx, di, ctr = last
+                o = returned[idx][0]
+                o.frame = names[other]
+                t.trans()
+                returned[idx][1] = np.array(o, dtype=float).copy()
+                returned[idx][2] = o.frame.name
+                returned[idx][3] = str(o.form)
+                last = (idx, di, other)
+                if not value(o, a, other, di, i, "in-place frame change", start=ctr):
+                    break
+            elif op == "M":
+                idx, di, ctr = last
+                o = returned[idx][0]
+                o.form = "spherical" if str(o.form) != "spherical" else "cartesian"
+                t.trans()
+                returned[idx][1] = np.array(o, dtype=float).copy()
+                returned[idx][3] = str(o.form)
+                if not value(o, a, ctr, di, i, "in-place form change"):
+                    break
+            else:
+                raise ValueError(op)
+    except Exception as e:
+        import traceback
+
+        tb = traceback.extract_tb(e.__traceback__)
+        if "/beyond/" not in tb[-1].filename and "jplephem" not in tb[-1].filename:
+            raise
+        t.fail(sig + "/raises", clause, case, "a state", repr(e))
+        return
+    for obj, snap, fr, fm, step in returned:
+        if not (np.array_equal(np.array(obj, dtype=float), snap) and obj.frame.name == fr and str(obj.form) == fm):
+            t.fail(sig + "/returned-changed", clause, case, [snap, fr, fm], [np.array(obj, dtype=float), obj.frame.name, str(obj.form)],
+                   f"orbit returned at step {step} changed after it was handed to the caller")
+    t.outcome(("hist", len(case["script"]), case["script"][0]))
+
+
 # ---------------------------------------------------------------------------
 
-CHECKS = dict(series=check_series, pair=check_pair, sc=check_spacecraft, config=check_config)
+CHECKS = dict(series=check_series, pair=check_pair, sc=check_spacecraft, config=check_config, hist=check_hist)
 
 
 def check_case(case, t):
@@ -350,6 +486,8 @@ def units(tier, seed):
     for mode in ("pck", "nopck"):
         for c in range(0, nd, per):
             u.append(({"jpl": mode}, dict(part="jpl", tier=tier, config=mode, dates=list(range(c, min(nd, c + per))))))
+        for b in HIST_BODIES if tier != "quick" or mode == "pck" else HIST_BODIES[:2]:
+            u.append(({"jpl": mode}, dict(part="hist", tier=tier, config=mode, body=b)))
     return u
 
 
@@ -362,6 +500,11 @@ def run_unit(p, t):
             for body in ("Sun", "Moon"):
                 check_case(dict(kind="series", body=body, mjd=mjd, sec=sec), t)
         t.sample(dict(kind="series", body="Moon", mjd=ds[0][0], sec=ds[0][1]))
+    elif p["part"] == "hist":
+        mode = {"jpl": p["config"]}
+        for script in hist_scripts(p["tier"]):
+            check_case(dict(kind="hist", config=mode, body=p["body"], script=script), t)
+        t.sample(dict(kind="hist", config=mode, body=p["body"], script=["G1", "F", "G1"]))
     else:
         mode = {"jpl": p["config"]}
         ids = spk_ref.bodies()
